@@ -60,7 +60,20 @@ const (
 const serviceInfoSig = "(sIsI[s]ss)<ServiceInfo,name,serviceId,machineId,processId,endpoints,sessionId,objectUid>"
 
 var reflectSigs = []string{"i", "s", "b", "d", "c", "W", "[s]", "[i]", "[[i]]", "[[[s]]]", "{si}", "{s[i]}", "{I{ss}}", "(is)", "([s]{sm})", "[m]", "m",
-	"[(sI)]", "{I(ss)}", "(s(s(s(sI))))", "[{sm}]", "((m)[m])", "[b]", "[d]", "{lb}", "(cCwWiIlLfdbs)"}
+	"[(sI)]", "{I(ss)}", "(s(s(s(sI))))", "[{sm}]", "((m)[m])", "[b]", "[d]", "{lb}", "(cCwWiIlLfdbs)",
+	// a list of every scalar kind (fast paths are written per element kind), alone and nested
+	"[C]", "[c]", "[w]", "[W]", "[I]", "[l]", "[L]", "[f]", "([C])", "[[C]]", "{s[C]}", "([C]s[c])", "[([C]I)]", "{C[C]}"}
+
+// reflectSig draws the type the reflection decoder is asked to fill: one of
+// the table, or a generated one.
+func reflectSig(t *rapid.T) string {
+	if rapid.IntRange(0, 3).Draw(t, "rgen") == 0 {
+		o := typeOpts()
+		o.Leaves = append(append([]ref.Kind{}, gen.AllScalars...), ref.KValue)
+		return gen.DrawType(t, o).Sig()
+	}
+	return rapid.SampledFrom(reflectSigs).Draw(t, "rsig")
+}
 
 var entries = []string{"message", "value", "typed", "metaobject", "objectref", "serviceinfo", "capmap", "reflect",
 	"stub:directory", "stub:object", "stub:auth", "stub:logprovider", "sigparse", "idlparse"}
@@ -275,7 +288,7 @@ func validFor(t *rapid.T, c *Case) ([]byte, []ref.Field) {
 	case "capmap":
 		ty, _ = ref.ParseSig("{sm}")
 	case "reflect":
-		c.Sig = rapid.SampledFrom(reflectSigs).Draw(t, "rsig")
+		c.Sig = reflectSig(t)
 		ty, _ = ref.ParseSig(c.Sig)
 		c.Pre = rapid.Bool().Draw(t, "presized")
 	default:
@@ -467,7 +480,7 @@ func genCase(t *rapid.T) Case {
 		case "typed":
 			c.Sig = gen.DrawType(t, typeOpts()).Sig()
 		case "reflect":
-			c.Sig = rapid.SampledFrom(reflectSigs).Draw(t, "rsig")
+			c.Sig = reflectSig(t)
 			c.Pre = rapid.Bool().Draw(t, "presized")
 		}
 	case "mutated-valid":
